@@ -9,6 +9,7 @@ import (
 	"math/big"
 	"strings"
 	"testing/iotest"
+	"time"
 
 	"github.com/decred/dcrd/dcrec/secp256k1/v4"
 	"github.com/ipfs/go-cid"
@@ -29,7 +30,7 @@ import (
 func init() {
 	register(stream{
 		name: "sealed",
-		rule: "(cbor) random IPLD trees with canonically ordered maps: dagcbor.Encode versus the model's encoder, and decode-then-recompare versus the model's accept on canonical bytes and on single-tweak re-encodings; (sealed) real delegations and invocations sealed with Ed25519, secp256k1, P-256 and RSA keys: the CID of ToSealed / ToSealedWriter / FromSealed / FromSealedReader (generic and typed) against an independent CIDv1(dag-cbor, sha2-256) of the bytes; every data-preserving re-encoding of each sealed token — a wider length prefix at each head, an indefinite-length form of each string/list/map, swapped map entries, an extra element in the outer list — and key-less signature re-encodings (ECDSA s ↦ n−s, a trailing byte after the DER signature), each offered to all six unsealing functions. Tokens with one field of 4095 … 300000 bytes through every sealing and unsealing API. Non-trivial = re-encoded or mutated inputs. Distinct = distinct protocol lines.",
+		rule: "(cbor) random IPLD trees with canonically ordered maps: dagcbor.Encode versus the model's encoder, and decode-then-recompare versus the model's accept on canonical bytes and on single-tweak re-encodings; (sealed) real delegations and invocations sealed with Ed25519, secp256k1, P-256 and RSA keys: the CID of ToSealed / ToSealedWriter / FromSealed / FromSealedReader (generic and typed) against an independent CIDv1(dag-cbor, sha2-256) of the bytes; every data-preserving re-encoding of each sealed token — a wider length prefix at each head, an indefinite-length form of each string/list/map, swapped map entries, an extra element in the outer list — and key-less signature re-encodings (ECDSA s ↦ n−s, a trailing byte after the DER signature), each offered to all six unsealing functions. A token whose values and lengths sit exactly at the CBOR head-size boundaries (23/24, 255/256, 65535/65536, 2^32−1/2^32, and their negative counterparts) under the same re-encodings. Tokens with one field of 4095 … 300000 bytes through every sealing and unsealing API. Non-trivial = re-encoded or mutated inputs. Distinct = distinct protocol lines.",
 		run:  runSealedStream,
 		eval: evalSealed,
 		cmp:  cmpSealed,
@@ -236,6 +237,14 @@ func sealFixture(kind, alg string, n int) ([]byte, cid.Cid, keyed, error) {
 		if n >= 100 && n < 200 {
 			opts = append(opts, delegation.WithMeta("big", bytes.Repeat([]byte{0xa5}, bigFieldSize(n))))
 		}
+		if n == 200 {
+			// values and lengths exactly at the points where a CBOR head grows: 23/24, 255/256, 65535/65536, 2^32-1/2^32
+			for i, v := range headBoundaries {
+				opts = append(opts, delegation.WithMeta(fmt.Sprintf("v%02d", i), v), delegation.WithMeta(fmt.Sprintf("w%02d", i), -1-v))
+			}
+			opts = append(opts, delegation.WithMeta("s23", strings.Repeat("x", 23)), delegation.WithMeta("s24", strings.Repeat("x", 24)), delegation.WithMeta("s255", strings.Repeat("y", 255)),
+				delegation.WithMeta("s256", strings.Repeat("y", 256)), delegation.WithMeta("b255", bytes.Repeat([]byte{7}, 255)), delegation.WithMeta("b256", bytes.Repeat([]byte{7}, 256)))
+		}
 		t, err := delegation.Root(k.did, aud.did, command.MustParse("/foo/bar"), pol, opts...)
 		if err != nil {
 			return nil, cid.Undef, k, err
@@ -255,6 +264,13 @@ func sealFixture(kind, alg string, n int) ([]byte, cid.Cid, keyed, error) {
 		return b, c, k, err
 	}
 	opts := []invocation.Option{invocation.WithNonce([]byte("nonce-nonce-" + fmt.Sprint(n))), invocation.WithoutInvokedAt()}
+	if n == 200 {
+		for i, v := range headBoundaries {
+			opts = append(opts, invocation.WithArgument(fmt.Sprintf("v%02d", i), v), invocation.WithArgument(fmt.Sprintf("w%02d", i), -1-v))
+		}
+		opts = append(opts, invocation.WithArgument("s255", strings.Repeat("y", 255)), invocation.WithArgument("s256", strings.Repeat("y", 256)),
+			invocation.WithArgument("l24", seqAny(24)), invocation.WithArgument("l23", seqAny(23)), invocation.WithExpiration(time.Unix(4294967295, 0)))
+	}
 	if n%2 == 1 {
 		opts = append(opts, invocation.WithArgument("a", int64(1)), invocation.WithArgument("s", "xyz"), invocation.WithArgument("l", []any{int64(1), "two"}))
 	}
@@ -273,6 +289,9 @@ func sealFixture(kind, alg string, n int) ([]byte, cid.Cid, keyed, error) {
 	b, c, err := t.ToSealed(k.priv)
 	return b, c, k, err
 }
+
+// headBoundaries: the largest argument of each CBOR head size and its successor
+var headBoundaries = []int64{23, 24, 255, 256, 65535, 65536, 4294967295, 4294967296}
 
 // bigFieldSize: shapes 100… carry one field of this many bytes (around the sizes at which buffers are typically flushed)
 func bigFieldSize(n int) int {
@@ -458,7 +477,10 @@ func runSealedStream(c *ctx) error {
 	}
 	for _, kind := range []string{"dlg", "inv"} {
 		for _, alg := range algs {
-			for s := 0; s < shapes; s++ {
+			for _, s := range append(seq(shapes), 200) {
+				if s == 200 && alg != "ed25519" {
+					continue // the shape with values and lengths at every head-size boundary: once
+				}
 				c.emit(fmt.Sprintf("go.sealed.apis %s %s %d", kind, alg, s), "cid-apis", true, "apis:"+alg)
 				b, _, k, err := sealFixture(kind, alg, s)
 				if err != nil {
@@ -550,3 +572,19 @@ func sigVariants(alg string, sig []byte) []sigVariant {
 }
 
 var _ = io.EOF
+
+func seq(n int) []int {
+	out := make([]int, n)
+	for i := range out {
+		out[i] = i
+	}
+	return out
+}
+
+func seqAny(n int) []any {
+	out := make([]any, n)
+	for i := range out {
+		out[i] = int64(i)
+	}
+	return out
+}
